@@ -71,6 +71,24 @@ def main():
             data = open(kf, 'rb').read() if os.path.exists(kf) else b''
             good = len(data) == 41 and data.endswith(b'\n') and all(chr(b) in '0123456789abcdefghijklmnopqrstuvwxyzABCDEFGHIJKLMNOPQRSTUVWXYZ%$' for b in data[:40])
             ev.update({'fault': fault or {'op': 'none', 'k': 0, 'kind': 'none'}, 'exit': rc, 'exists': 1 if os.path.exists(kf) else 0, 'wellformed': 1 if good else 0, 'tripped': trip})
+        elif kind == 'sumfault':
+            # a read error on the data file at its k-th read (strace fault injection; asconsum uses stdio)
+            content = bytes(sc['content']); name = 'data.bin'; path = os.path.join(work, name)
+            open(path, 'wb').write(content)
+            slog = os.path.join(work, 'strace.log')
+            def srun(args):
+                p = subprocess.run(['strace', '-o', slog, '-P', path, '-e', 'trace=read', '-e', 'inject=read:error=EIO:when=%d' % sc['k']] + args,
+                                   stdout=subprocess.PIPE, stderr=subprocess.PIPE, env=env0, cwd=work, timeout=120)
+                trip = 1 if os.path.exists(slog) and 'INJECTED' in open(slog).read() else 0
+                return p.returncode, p.stdout.decode('latin1'), trip
+            if sc.get('check'):
+                rc0, so0, se0, _ = run([SUM, '-' + sc['alg'], name])
+                open(os.path.join(work, 'sums.txt'), 'w').write(so0.decode('latin1'))
+                rc, so, trip = srun([SUM, '-' + sc['alg'] + 'c', 'sums.txt'])
+                ev.update({'alg': sc['alg'], 'check': 1, 'k': sc['k'], 'size': len(content), 'exit': rc, 'tripped': trip, 'reported_ok': 1 if (name + ': OK') in so else 0, 'printed': 0})
+            else:
+                rc, so, trip = srun([SUM, '-' + sc['alg'], name])
+                ev.update({'alg': sc['alg'], 'check': 0, 'k': sc['k'], 'size': len(content), 'exit': rc, 'tripped': trip, 'reported_ok': 0, 'printed': 1 if name in so else 0})
         elif kind == 'sum':
             content = bytes(sc['content']); name = sc.get('name', 'data.bin')
             open(os.path.join(work, name), 'wb').write(content)
